@@ -20,16 +20,16 @@ import (
 // C19 — Generator gradient helpers.
 
 type c19Case struct {
-	Kind     int        `json:"kind"` // 0 general, 1 linear, 2 circular, 3 elliptical
-	G        [6]uint32  `json:"geometry_bits"`
-	Spread   int        `json:"spread"`
-	NStops   int        `json:"nstops"`
-	Model    int        `json:"colour_model"`
-	CSel     int        `json:"csel"`
-	NSel     int        `json:"nsel"`
-	ByIncr   bool       `json:"selectors_reached_by_increment"`
-	Dest     int        `json:"dest"` // 0 Renderer, 1 Encoder
-	Desc     string     `json:"desc,omitempty"`
+	Kind   int       `json:"kind"` // 0 general, 1 linear, 2 circular, 3 elliptical
+	G      [6]uint32 `json:"geometry_bits"`
+	Spread int       `json:"spread"`
+	NStops int       `json:"nstops"`
+	Model  int       `json:"colour_model"`
+	CSel   int       `json:"csel"`
+	NSel   int       `json:"nsel"`
+	ByIncr bool      `json:"selectors_reached_by_increment"`
+	Dest   int       `json:"dest"` // 0 Renderer, 1 Encoder
+	Desc   string    `json:"desc,omitempty"`
 }
 
 var c19Lens = []int{0, 1, 2, 3, 57, 58, 59, 63, 64, 65, 255, 256, 257, 300}
@@ -114,7 +114,7 @@ func init() {
 			"replaying the writes on the specification VM puts colours (RGBAModel conversion), offsets and the six matrix entries where that value says, CSEL/NSEL are restored, and the paint reaching the rasteriser has the given stops/spread/shape and a transform that realises the geometry (0 at (x1,y1), 1 at (x2,y2), constant along perpendiculars; 0 at the centre and distance 1 at the radius/axis end points; the given matrix). " +
 			"distinct = (error class, kind, dest, nstops class); non-trivial = helper call that writes registers",
 		Assumptions: []string{"geometric tolerance 2^-18 relative to the sum of the magnitudes of the terms of the affine form", "Encoder route: register values compared under the C01 number tolerance after decoding"},
-		Units: func(tier string) int { return 64 + len(c19Geoms()) },
+		Units:       func(tier string) int { return 64 + len(c19Geoms()) },
 		Run: func(w *mc.W, u int) {
 			if u < 64 {
 				for _, nsel := range []int{0, 9, 10, 63} {
